@@ -4,7 +4,7 @@ From Coq Require Import Ascii String.
 From Coq Require Import List ZArith NArith Bool Lia.
 From Coq.Strings Require Import Byte.
 From OgRek Require Import Base Utf8 GoStrconv PyQuote Float Value PyEq Encoder Norm Insn EncProg PyVM PyVal.
-From OgRek Require Import BaseFacts IntFacts EncoderFacts ExecFacts ProgFacts Utf8Facts.
+From OgRek Require Import BaseFacts IntFacts EncoderFacts ExecFacts ProgFacts Utf8Facts QuoteFacts.
 Import ListNotations.
 Open Scope N_scope.
 
@@ -116,12 +116,19 @@ Section PY.
   Lemma py_bytestring : forall s x, pv_bytestring c s = Some x ->
     pgood (enc_bytestring c s) (p_bytestring c s) x.
   Proof.
-    intros s x H. unfold pv_bytestring in H.
-    destruct ((1 <=? e_proto c)%Z && (Nlen s <? 2147483648)) eqn:E; [|discriminate]. inversion H; subst.
-    apply andb_true_iff in E. destruct E as [E1 E2]. unfold enc_bytestring, p_bytestring. cbv zeta. rewrite E1.
-    destruct (Nlen s <? 256) eqn:L; (apply pg_one; [apply wok_emit2|]); intros st; cbn [pstep].
-    - rewrite L. reflexivity.
-    - rewrite E2. reflexivity.
+    intros s x H. unfold pv_bytestring in H. unfold enc_bytestring, p_bytestring. cbv zeta.
+    destruct (1 <=? e_proto c)%Z eqn:E1.
+    - destruct (Nlen s <? 2147483648) eqn:E2; [|discriminate]. inversion H; subst.
+      destruct (Nlen s <? 256) eqn:L; (apply pg_one; [apply wok_emit2|]); intros st; cbn [pstep].
+      + rewrite L. reflexivity.
+      + rewrite E2. reflexivity.
+    - inversion H; subst. apply pg_one; [apply wok_emit|]. intros st. cbn [pstep].
+      unfold pyquote. set (body := pyquote_loop (e_isprint c) (length s) s).
+      rewrite lastb_app_one. change (beqb """"%byte """"%byte) with true.
+      change (beqb """"%byte "'"%byte || beqb """"%byte """"%byte) with true. cbn [andb].
+      pose proof (nolf_pyquote (e_isprint c) s) as NL. unfold pyquote in NL. fold body in NL.
+      unfold nolf, IntFacts.no_lf in NL. unfold PyVM.no_lf. rewrite NL.
+      rewrite removelast_last. unfold body. rewrite pydecode_string_escape_pyquote_body. reflexivity.
   Qed.
 
   Lemma py_unicode : forall s x, pv_unicode c s = Some x -> pgood (enc_unicode c s) (p_unicode c s) x.
